@@ -28,41 +28,47 @@ package memefish
 // @ schema parsernp memefish\.\(\*Parser\)\.(parseAllOrDistinct|parseIfExists|parseIfNotExists|parsePipeOperators|parsePropertyGraphLabelAndPropertiesList|parseSelectResults|parsePrivilege|parseArg|parseSequenceParams)
 // @   props C03 C09
 // @   requires ParserInv(p)
+// @   requires[C04] wfargs: wfArgs()
 // @   ensures ParserInv(p)
 // @   ensures (p.Lexer == old(p.Lexer) || fresh(p.Lexer)) && p.Lexer.File == old(p.Lexer.File)
 // @   ensures p.Lexer.Token.Pos >= old(p.Lexer.Token.Pos)
 // @   ensures[C09] errs: len(p.errors) >= old(len(p.errors))
 // @   ensures[C04] nonnil: notNil(result)
+// @   ensures[C04] wf: wf(result)
 // @   panics when true
 // @   modifies p.Lexer, p.errors, cur(p.Lexer).pos, cur(p.Lexer).Token.*, cur(p.Lexer).lastTokenKind, cur(p.Lexer).dotIdent, p.Lexer.File.lines
-// @   loop * invariant ParserInv(p) && (p.Lexer == old(p.Lexer) || fresh(p.Lexer)) && p.Lexer.File == old(p.Lexer.File) && p.Lexer.Token.Pos >= old(p.Lexer.Token.Pos) && len(p.errors) >= old(len(p.errors))
+// @   loop * invariant ParserInv(p) && (p.Lexer == old(p.Lexer) || fresh(p.Lexer)) && p.Lexer.File == old(p.Lexer.File) && p.Lexer.Token.Pos >= old(p.Lexer.Token.Pos) && len(p.errors) >= old(len(p.errors)) && wfLocals()
 // @   loop * decreases len(p.Lexer.Buffer) - p.Lexer.Token.Pos
 
 // @ schema parser memefish\.\(\*Parser\)\.parse\w+ except memefish\.\(\*Parser\)\.(parseTableNameSuffix|parsePathTableExprSuffix|parseUnnestSuffix)
 // @   props C03 C09
 // @   requires ParserInv(p)
+// @   requires[C04] wfargs: wfArgs()
 // @   ensures ParserInv(p)
 // @   ensures (p.Lexer == old(p.Lexer) || fresh(p.Lexer)) && p.Lexer.File == old(p.Lexer.File)
 // @   ensures p.Lexer.Token.Pos >= old(p.Lexer.Token.Pos)
 // @   ensures[C09] errs: len(p.errors) >= old(len(p.errors))
 // @   ensures[C04] nonnil: notNil(result)
+// @   ensures[C04] wf: wf(result)
 // @   ensures[C03] progress: len(p.errors) == old(len(p.errors)) ==> p.Lexer.Token.Pos > old(p.Lexer.Token.Pos)
 // @   ensures[C18,C05] freshres: freshRef(result)
 // @   panics when true
 // @   modifies p.Lexer, p.errors, cur(p.Lexer).pos, cur(p.Lexer).Token.*, cur(p.Lexer).lastTokenKind, cur(p.Lexer).dotIdent, p.Lexer.File.lines
-// @   loop * invariant ParserInv(p) && (p.Lexer == old(p.Lexer) || fresh(p.Lexer)) && p.Lexer.File == old(p.Lexer.File) && p.Lexer.Token.Pos >= old(p.Lexer.Token.Pos) && len(p.errors) >= old(len(p.errors))
+// @   loop * invariant ParserInv(p) && (p.Lexer == old(p.Lexer) || fresh(p.Lexer)) && p.Lexer.File == old(p.Lexer.File) && p.Lexer.Token.Pos >= old(p.Lexer.Token.Pos) && len(p.errors) >= old(len(p.errors)) && wfLocals()
 // @   loop * decreases len(p.Lexer.Buffer) - p.Lexer.Token.Pos
 
 // @ schema parseropt memefish\.\(\*Parser\)\.tryParse\w+
 // @   props C03 C09
 // @   requires ParserInv(p)
+// @   requires[C04] wfargs: wfArgs()
 // @   ensures ParserInv(p)
 // @   ensures (p.Lexer == old(p.Lexer) || fresh(p.Lexer)) && p.Lexer.File == old(p.Lexer.File)
 // @   ensures p.Lexer.Token.Pos >= old(p.Lexer.Token.Pos)
 // @   ensures[C09] errs: len(p.errors) >= old(len(p.errors))
+// @   ensures[C04] wf: wf(result)
 // @   panics when true
 // @   modifies p.Lexer, p.errors, cur(p.Lexer).pos, cur(p.Lexer).Token.*, cur(p.Lexer).lastTokenKind, cur(p.Lexer).dotIdent, p.Lexer.File.lines
-// @   loop * invariant ParserInv(p) && (p.Lexer == old(p.Lexer) || fresh(p.Lexer)) && p.Lexer.File == old(p.Lexer.File) && p.Lexer.Token.Pos >= old(p.Lexer.Token.Pos) && len(p.errors) >= old(len(p.errors))
+// @   loop * invariant ParserInv(p) && (p.Lexer == old(p.Lexer) || fresh(p.Lexer)) && p.Lexer.File == old(p.Lexer.File) && p.Lexer.Token.Pos >= old(p.Lexer.Token.Pos) && len(p.errors) >= old(len(p.errors)) && wfLocals()
 // @   loop * decreases len(p.Lexer.Buffer) - p.Lexer.Token.Pos
 
 // Lookahead: the parser state is restored exactly (the lexer object may be a fresh copy); no error
@@ -70,6 +76,7 @@ package memefish
 // @ schema lookahead memefish\.\(\*Parser\)\.lookahead\w+
 // @   props C03 C09
 // @   requires ParserInv(p)
+// @   requires[C04] wfargs: wfArgs()
 // @   ensures ParserInv(p)
 // @   ensures (p.Lexer == old(p.Lexer) || fresh(p.Lexer)) && p.Lexer.File == old(p.Lexer.File)
 // @   ensures[C09] restored: p.Lexer.pos == old(p.Lexer.pos) && p.Lexer.Token == old(p.Lexer.Token) && p.Lexer.lastTokenKind == old(p.Lexer.lastTokenKind) && p.Lexer.dotIdent == old(p.Lexer.dotIdent)
@@ -190,11 +197,15 @@ package memefish
 
 // @ schema handler memefish\.\(\*Parser\)\.handleParse\w+Error
 // @   props C03 C09 C10
-// @   requires p != nil && isErr(r) && CloneOK(l)
+// @   requires p != nil && isErr(r) && l != nil
+// @   requires lex: LexInv(l)
+// @   requires tok: TokOK(l)
+// @   requires ne: nonEmptyTok(l) && l.Token.Kind != ""
 // @   ensures ParserInv(p) && p.Lexer == l && l.File == old(l.File) && freshRef(result)
 // @   ensures p.Lexer.Token.Pos >= old(l.Token.Pos)
 // @   ensures[C09] recorded: len(p.errors) == old(len(p.errors)) + 1
 // @   ensures[C04] nonnil: notNil(result)
+// @   ensures[C04] wf: wf(result)
 // @   panics never
 // @   modifies p.errors, p.Lexer, l.pos, l.Token.*, l.lastTokenKind, l.dotIdent, l.File.lines
 
@@ -233,7 +244,11 @@ package memefish
 // @ func memefish.(*Parser).parseQueryExpr
 // @   inherit parser
 // @   panics never
-// @   loop 0 invariant notNil(query) && freshRef(query) && (len(p.errors) == old(len(p.errors)) ==> p.Lexer.Token.Pos > old(p.Lexer.Token.Pos))
+// @   loop 0 invariant lx: p.Lexer != l && CloneOK(l) && l.File == p.Lexer.File
+// @   loop 0 invariant nn: notNil(query)
+// @   loop 0 invariant wfq: wf(query)
+// @   loop 0 invariant fr: freshRef(query)
+// @   loop 0 invariant pr: len(p.errors) == old(len(p.errors)) ==> p.Lexer.Token.Pos > old(p.Lexer.Token.Pos)
 // @ func memefish.(*Parser).parseSimpleQueryExpr
 // @   inherit parser
 // @   panics never
@@ -258,15 +273,16 @@ package memefish
 
 // @ func memefish.parseCommaSeparatedList
 // @   props C03 C09
-// @   fparam doParse parseropt
+// @   fparam doParse parser
 // @   requires ParserInv(p)
 // @   ensures ParserInv(p) && (p.Lexer == old(p.Lexer) || fresh(p.Lexer)) && p.Lexer.File == old(p.Lexer.File)
 // @   ensures p.Lexer.Token.Pos >= old(p.Lexer.Token.Pos)
 // @   ensures[C09] errs: len(p.errors) >= old(len(p.errors))
 // @   ensures len(result) >= 1
+// @   ensures[C04] wf: wf(result)
 // @   panics when true
 // @   modifies p.Lexer, p.errors, cur(p.Lexer).pos, cur(p.Lexer).Token.*, cur(p.Lexer).lastTokenKind, cur(p.Lexer).dotIdent, p.Lexer.File.lines
-// @   loop 0 invariant ParserInv(p) && (p.Lexer == old(p.Lexer) || fresh(p.Lexer)) && p.Lexer.File == old(p.Lexer.File) && p.Lexer.Token.Pos >= old(p.Lexer.Token.Pos) && len(p.errors) >= old(len(p.errors)) && len(nodes) >= 1
+// @   loop 0 invariant ParserInv(p) && (p.Lexer == old(p.Lexer) || fresh(p.Lexer)) && p.Lexer.File == old(p.Lexer.File) && p.Lexer.Token.Pos >= old(p.Lexer.Token.Pos) && len(p.errors) >= old(len(p.errors)) && len(nodes) >= 1 && wf(nodes)
 // @   loop 0 decreases len(p.Lexer.Buffer) - p.Lexer.Token.Pos
 
 // @ func memefish.parseStatements
@@ -284,11 +300,13 @@ package memefish
 // @ schema recovering memefish\.\(\*Parser\)\.NOTHING
 // @   props C03 C09
 // @   requires ParserInv(p)
+// @   requires[C04] wfargs: wfArgs()
 // @   ensures ParserInv(p)
 // @   ensures (p.Lexer == old(p.Lexer) || fresh(p.Lexer)) && p.Lexer.File == old(p.Lexer.File)
 // @   ensures p.Lexer.Token.Pos >= old(p.Lexer.Token.Pos)
 // @   ensures[C09] errs: len(p.errors) >= old(len(p.errors))
 // @   ensures[C04] nonnil: notNil(result)
+// @   ensures[C04] wf: wf(result)
 // @   panics never
 // @   modifies p.Lexer, p.errors, cur(p.Lexer).pos, cur(p.Lexer).Token.*, cur(p.Lexer).lastTokenKind, cur(p.Lexer).dotIdent, p.Lexer.File.lines
 
@@ -317,7 +335,7 @@ package memefish
 // @   modifies cur(p.Lexer).pos, cur(p.Lexer).Token.*, cur(p.Lexer).lastTokenKind, cur(p.Lexer).dotIdent, p.Lexer.File.lines
 
 // Left-associative binary levels: `expr` is the operand tree built so far.
-// @ spec chainInv(p, expr, nerr0, pos0) = notNil(expr) && (len(p.errors) == nerr0 ==> p.Lexer.Token.Pos > pos0)
+// @ spec chainInv(p, expr, nerr0, pos0) = notNil(expr) && wf(expr) && (len(p.errors) == nerr0 ==> p.Lexer.Token.Pos > pos0)
 // @ func memefish.(*Parser).parseOr
 // @   inherit parser
 // @   loop 0 invariant chainInv(p, expr, old(len(p.errors)), old(p.Lexer.Token.Pos)) && freshRef(expr)
@@ -404,24 +422,25 @@ package memefish
 // before the call; they return that same node).
 // @ func memefish.(*Parser).parseTableExprSuffix
 // @   props C03 C09
-// @   requires ParserInv(p) && notNil(join)
+// @   requires ParserInv(p) && notNil(join) && wf(join)
 // @   requires[C03] known: typeIs(join, "*ast.Unnest") || typeIs(join, "*ast.TableName") || typeIs(join, "*ast.PathTableExpr") || typeIs(join, "*ast.SubQueryTableExpr") || typeIs(join, "*ast.ParenTableExpr")
 // @   ensures ParserInv(p)
 // @   ensures (p.Lexer == old(p.Lexer) || fresh(p.Lexer)) && p.Lexer.File == old(p.Lexer.File)
 // @   ensures p.Lexer.Token.Pos >= old(p.Lexer.Token.Pos)
 // @   ensures[C09] errs: len(p.errors) >= old(len(p.errors))
-// @   ensures result == join
+// @   ensures result == join && wf(result)
 // @   panics when true
 // @   modifies p.Lexer, p.errors, cur(p.Lexer).pos, cur(p.Lexer).Token.*, cur(p.Lexer).lastTokenKind, cur(p.Lexer).dotIdent, p.Lexer.File.lines, node(join).Sample
 
 // @ func memefish.(*Parser).parseQueryExprSuffix
 // @   props C03 C09
-// @   requires ParserInv(p) && notNil(e)
+// @   requires ParserInv(p) && notNil(e) && wf(e)
 // @   ensures ParserInv(p)
 // @   ensures (p.Lexer == old(p.Lexer) || fresh(p.Lexer)) && p.Lexer.File == old(p.Lexer.File)
 // @   ensures p.Lexer.Token.Pos >= old(p.Lexer.Token.Pos)
 // @   ensures[C09] errs: len(p.errors) >= old(len(p.errors))
 // @   ensures[C04] nonnil: notNil(result)
+// @   ensures[C04] wf: wf(result)
 // @   ensures result == e || freshRef(result)
 // @   panics when true
 // @   modifies p.Lexer, p.errors, cur(p.Lexer).pos, cur(p.Lexer).Token.*, cur(p.Lexer).lastTokenKind, cur(p.Lexer).dotIdent, p.Lexer.File.lines
@@ -439,11 +458,35 @@ package memefish
 // @ schema parsersuffix memefish\.\(\*Parser\)\.(parseTableNameSuffix|parsePathTableExprSuffix|parseUnnestSuffix)
 // @   props C03 C09
 // @   requires ParserInv(p)
+// @   requires[C04] wfargs: wfArgs()
 // @   ensures ParserInv(p)
 // @   ensures (p.Lexer == old(p.Lexer) || fresh(p.Lexer)) && p.Lexer.File == old(p.Lexer.File)
 // @   ensures p.Lexer.Token.Pos >= old(p.Lexer.Token.Pos)
 // @   ensures[C09] errs: len(p.errors) >= old(len(p.errors))
 // @   ensures[C04] nonnil: notNil(result)
+// @   ensures[C04] wf: wf(result)
 // @   ensures[C18,C05] freshres: freshRef(result)
 // @   panics when true
 // @   modifies p.Lexer, p.errors, cur(p.Lexer).pos, cur(p.Lexer).Token.*, cur(p.Lexer).lastTokenKind, cur(p.Lexer).dotIdent, p.Lexer.File.lines
+
+// Finishers: the caller hands in the node(s) it has just parsed.
+// @ func memefish.(*Parser).parsePathTableExprSuffix
+// @   inherit parsersuffix
+// @   requires notNil(id)
+// @ func memefish.(*Parser).parseTableNameSuffix
+// @   inherit parsersuffix
+// @   requires notNil(id)
+// @ func memefish.(*Parser).parseUnnestSuffix
+// @   inherit parsersuffix
+// @   requires notNil(expr)
+// @ func memefish.(*Parser).parseNewConstructor
+// @   inherit parser
+// @   requires notNil(namedType)
+// @ func memefish.(*Parser).parseBracedNewConstructor
+// @   inherit parser
+// @   requires notNil(namedType)
+// @ func memefish.(*Parser).tryParseCreateModelColumn
+// @   inherit parser
+// @ func memefish.(*Parser).parseChangeStreamFor
+// @   inherit parser
+// @   loop 0 invariant wf(cswt)
